@@ -184,9 +184,18 @@ func (s *stmt) replay(e *env, extra map[string]any) map[string]any {
 // verifyPair runs the real HashVerify and the recording verifier, emits the
 // model case (dlog) and returns the verdict.
 func (c *run) verifyPair(e *env, s *stmt, pf []byte, what string) int {
+	return c.verifyPairWith(e, s, pf, what, nil)
+}
+
+// verifyPairWith: vr != nil is a verifier closure the caller keeps using (object history)
+func (c *run) verifyPairWith(e *env, s *stmt, pf []byte, what string, vr proof.Verifier) int {
 	const name = "PairShuffle"
-	v1 := verifyReal(e.S, name, e.pairVerifier(s), pf)
-	v2, rv := verifyRec(e.S, name, e.pairVerifier(s), pf)
+	va, vb := vr, vr
+	if vr == nil {
+		va, vb = e.pairVerifier(s), e.pairVerifier(s)
+	}
+	v1 := verifyReal(e.S, name, va, pf)
+	v2, rv := verifyRec(e.S, name, vb, pf)
 	if v1 != v2 {
 		c.rep.Fail("proof.HashVerify/verdict-differs-from-Fiat-Shamir-specification",
 			fmt.Sprintf("proof.HashVerify=%d, verifier run with challenges derived as hash.go specifies (XOF(name), reseeded with every complete message)=%d (%s, k=%d, first message %d bytes)",
@@ -233,16 +242,26 @@ func (c *run) judge(e *env, s *stmt, v int, altered bool, key, what string, extr
 
 // honest PairShuffle.Prove under the recording context
 func (c *run) honestPair(e *env, in *inst, pi []int, beta []sc) (*stmt, []byte, *recProver) {
+	return c.honestPairOn(e, in, pi, beta, nil, "honest")
+}
+
+// honestPairOn: ps != nil is a PairShuffle object with a history (already Init'ed for in.k)
+func (c *run) honestPairOn(e *env, in *inst, pi []int, beta []sc, ps *shuffle.PairShuffle, what string) (*stmt, []byte, *recProver) {
 	k := in.k
 	xb, yb := e.shuffleOut(in, pi, beta)
 	s := &stmt{in.g, in.h, in.x, in.y, xb, yb}
-	ps := shuffle.PairShuffle{}
-	ps.Init(e.S, k)
+	if ps == nil {
+		ps = &shuffle.PairShuffle{}
+		ps.Init(e.S, k)
+	}
 	rp := newRecProver(e.S, "PairShuffle", e.st)
 	var err error
+	G, H, X, Y, B := e.pt(in.g), e.pt(in.h), e.pts(in.x), e.pts(in.y), clones(beta)
+	gd := newGuard(e, map[string][]kyber.Point{"G": {G}, "H": {H}, "X": X, "Y": Y}, map[string][]sc{"beta": B})
 	pan, msg := vh.Try(func() {
-		err = ps.Prove(pi, e.pt(in.g), e.pt(in.h), clones(beta), e.pts(in.x), e.pts(in.y), e.st, rp)
+		err = ps.Prove(pi, G, H, B, X, Y, e.st, rp)
 	})
+	gd.check(c, "shuffle.PairShuffle.Prove")
 	if pan || err != nil {
 		c.rep.Fail("shuffle.PairShuffle.Prove/honest-prover-fails", fmt.Sprint(msg, err), s.replay(e, map[string]any{"pi": pi, "beta": hexScs(beta)}))
 		return s, nil, rp
@@ -258,15 +277,15 @@ func (c *run) honestPair(e *env, in *inst, pi []int, beta []sc) (*stmt, []byte, 
 				zInts(pi), zSc(in.g), zSc(in.h), zScs(beta), zScs(in.x), zScs(in.y),
 				zItems(pri[:k]), zItems(pri[k:2*k]), zItems(pri[2*k:3*k]), vh.CoqZ(ival(pri[3*k])), vh.CoqZ(ival(pri[3*k+2])),
 				zItems(pri[3*k+3:]), ch, tr))
-			c.rep.Index(id, fmt.Sprintf("PairShuffle.Prove k=%d pi=%v", k, pi))
+			c.rep.Index(id, fmt.Sprintf("PairShuffle.Prove k=%d pi=%v (%s)", k, pi, what))
 			c.rep.Count(fmt.Sprintf("pp/%x", pf), true)
 		} else {
 			c.rep.Fail("harness/pair-prover-layout", "unexpected message layout of PairShuffle.Prove", nil)
 		}
 	}
-	v := c.verifyPair(e, s, pf, "honest")
+	v := c.verifyPair(e, s, pf, what)
 	if v != vOK {
-		c.rep.Fail("shuffle.PairShuffle/honest-proof-rejected", fmt.Sprintf("verdict %d", v), s.replay(e, map[string]any{"pi": pi, "beta": hexScs(beta)}))
+		c.rep.Fail("shuffle.PairShuffle/honest-proof-rejected", fmt.Sprintf("verdict %d (%s)", v, what), s.replay(e, map[string]any{"pi": pi, "beta": hexScs(beta), "history": what}))
 	}
 	return s, pf, rp
 }
@@ -974,6 +993,7 @@ func main() {
 				c.splice(e, k)
 				c.perturb(e, k, name == "dlog")
 			}
+			c.history(e)
 			c.simpleAll(e, kmax)
 			c.biffleAll(e)
 			c.seqAll(e, nq)
